@@ -18,7 +18,9 @@ import os, re, glob
 import vlib, confcheck, confgen, sqlq
 
 SMALL_KINDS = confgen.KINDS
-BIG_KINDS = ["filter", "project", "join", "join-outer", "agg", "agg", "agg-intkey", "agg-global", "agg-join", "distinct", "union",
+# join-right / join-full: the probe side of a RIGHT/FULL join is not the one `build_right` alone suggests, and the two inputs declare
+# different partition counts (1300 rows in many batches vs 60 rows): added after seeded change seeded/C07
+BIG_KINDS = ["filter", "project", "join", "join-outer", "join-right", "join-right", "join-full", "agg", "agg", "agg-intkey", "agg-global", "agg-join", "distinct", "union",
              "union-mixed", "sort", "topk", "sort-offset", "sort-agg"]
 
 def guard_table():
